@@ -15,6 +15,7 @@ PLAN = [  # (finding id, property, mutant name in mutants/<PID>.json)
     ("KF-D4", "C12", "revert-D4-stopped-answers"),
     ("KF-D11", "C10", "revert-D11-flush-before-stopoffer"), ("KF-D11", "C04", "revert-D11-flush-before-stopoffer"),
     ("KF-D2", "C04", "revert-D2-subscribe-sync"),
+    ("KF-D12", "C05", "revert-D12-stale-entry-kept"),
 ]
 child = r'''
 import json, sys
